@@ -17,6 +17,7 @@ swallowed by `unfoldMime`. The rejection theorems below are therefore about `Htt
 -/
 import SquidModel.Header.RoundtripLemmas
 import SquidModel.Header.MimeLemmas
+import SquidModel.Header.BareCr
 
 namespace SquidModel.C25
 open SquidModel SquidModel.Header
@@ -117,6 +118,20 @@ theorem framing_fold_rejected (cfg : Cfg) (fs : List FieldSyn) (f : FieldSyn) (c
     parseHeader cfg (fs.flatMap FieldSyn.wire ++ f.line ++ 10 :: (cont ++ 10 :: rest)) = .reject :=
   Header.framing_fold_rejected cfg fs f cont rest hw wf hfr hc hc10
 
+/-- bare CR in Content-Length or Transfer-Encoding with the relaxed parser (which rewrites bare CRs in other fields to SP):
+a framing-field line whose value has a CR followed by at least one more byte is never accepted -/
+theorem framing_bare_cr_rejected (cfg : Cfg) (fs : List FieldSyn) (name a : Bytes) (c : UInt8) (b rest : Bytes)
+    (hw : ∀ f ∈ fs, WF cfg f) (wn : WF cfg (nameOnly name)) (hfr : isFraming (idOfName name) = true)
+    (h10 : (10 : UInt8) ∉ a ++ 13 :: c :: b) :
+    parseHeader cfg (fs.flatMap FieldSyn.wire ++ (name ++ 58 :: (a ++ 13 :: c :: b)) ++ 10 :: rest) = .reject :=
+  bare_cr_framing_rejected cfg fs name a c b rest hw wn hfr h10
+
+/-- bare CR anywhere, with the strict parser -/
+theorem bare_cr_strict_rejected (cfg : Cfg) (hs : cfg.relaxed = false) (fs : List FieldSyn) (a : Bytes) (c : UInt8) (b rest : Bytes)
+    (hw : ∀ f ∈ fs, WF cfg f) (h10 : (10 : UInt8) ∉ a ++ 13 :: c :: b) (hst : startsWsp (a ++ 13 :: c :: b) = false) :
+    parseHeader cfg (fs.flatMap FieldSyn.wire ++ (a ++ 13 :: c :: b) ++ 10 :: rest) = .reject :=
+  Header.bare_cr_strict_rejected cfg hs fs a c b rest hw h10 hst
+
 /-- a request line that consists of CRs only -/
 theorem cr_only_line_rejected (cfg : Cfg) (ho : cfg.owner = Owner.request) (fs : List FieldSyn) (crs rest : Bytes)
     (hw : ∀ f ∈ fs, WF cfg f) (hne : crs ≠ []) (hcr : crs.all (· == 13) = true) :
@@ -162,6 +177,12 @@ example : entryOf ⟨[104,79,115,116], [32], [32,9], [97,32,98], [9], false⟩ =
 /-- the recognisers reject what they should: a name with a space is not well-formed, `Stored` fails for a value with a trailing space -/
 example : ¬ (([104,32,116] : Bytes).all Gen.CharSets.TCHAR.mem = true) := by decide +kernel
 example : ¬ Stored ⟨idOther, [65], [97, 32]⟩ := fun h => absurd (h.value_last 32 rfl) (by decide)
+/-- `Content-Length` and `transfer-ENCODING` are framing names, and a bare name is a (degenerate) well-formed line -/
+example : isFraming (idOfName [116,114,97,110,115,102,101,114,45,69,78,67,79,68,73,78,71]) = true := by decide +kernel
+example : WF ⟨true, .request, false⟩ (nameOnly [67,111,110,116,101,110,116,45,76,101,110,103,116,104]) :=
+  { name_ne := by decide, name_tchar := by decide +kernel, name_len := by decide, bws_ws := by decide,
+    bws_ok := Or.inl rfl, lead_ws := by decide, trail_ws := by decide,
+    value_clean := by decide, value_head := by decide, value_last := by decide, value_len := by decide }
 /-- an accepted folded field keeps the raw fold when `HttpHeader::parse` is called directly -/
 example : parseHeader ⟨true, .reply, false⟩ [65,58,32,98, 13,10, 32,99, 13,10]
     = .ok ⟨[⟨idOther, [65], [98, 13, 10, 32, 99]⟩], false, false⟩ := by decide +kernel
